@@ -4,7 +4,8 @@ C08 models, part 1: the CSV writer and the byte-level RFC-4180 reader (the *spec
 
 * `csvWrite sep fs` — what `print` in CSV/TSV output mode writes for the field list `fs` (`interp/io.go` `printArgs` →
   `writeCSV` → Go's `encoding/csv.Writer.Write` with `Comma = sep`, `UseCRLF = false`): `fieldNeedsQuotes`, quote doubling,
-  separator between fields, one `\n` at the end. `joinFields` (`interp/interp.go`) is the same text without the final newline.
+  separator between fields, one `\n` at the end; the record of one empty field is written as `""`. `joinFields`
+  (`interp/interp.go`) is the same text without the final newline.
 * `csvRecords cfg data` — a direct recursive reader: RFC 4180 records with lenient quotes (what `encoding/csv.Reader` with
   `LazyQuotes`, `FieldsPerRecord = -1` and the given `Comment` yields), each record with its fields and its `$0`
   exactly as `csvSplitter.scan` computes them when the whole input is in the buffer at EOF.
@@ -60,11 +61,17 @@ def escape : Bytes → Bytes
 def encodeField (sep f : Bytes) : Bytes :=
   if needsQuotes sep f then 34 :: (escape f ++ [34]) else f
 
-/-- the fields joined by the separator, no line terminator: `joinFields` in CSV/TSV output mode -/
-def joinFields (sep : Bytes) : List Bytes → Bytes
+/-- the fields joined by the separator as `encoding/csv.Writer.Write` does, no line terminator -/
+def joinRaw (sep : Bytes) : List Bytes → Bytes
   | [] => []
   | [f] => encodeField sep f
-  | f :: fs => encodeField sep f ++ sep ++ joinFields sep fs
+  | f :: fs => encodeField sep f ++ sep ++ joinRaw sep fs
+
+/-- `joinFields` in CSV/TSV output mode = what `writeCSV` writes, without the line terminator: a record of exactly one
+empty field is written as `""` (csv.Writer would write an empty line, which is not a record when read back); every other
+record goes through `csv.Writer`. -/
+def joinFields (sep : Bytes) (fs : List Bytes) : Bytes :=
+  if fs = [[]] then [34, 34] else joinRaw sep fs
 
 /-- one `print` in CSV/TSV output mode -/
 def csvWrite (sep : Bytes) (fs : List Bytes) : Bytes := joinFields sep fs ++ [10]
